@@ -46,8 +46,8 @@ def models_for(plugin, work, thorough):
         b = docs.slice_model(com, methods=("textDocument/colorPresentation", "shutdown", "exit", "textDocument/didOpen"),
                              names=("ParameterInformation", "FoldingRange"))
     if plugin == "testdata":
-        a = docs.slice_model(com, methods=("shutdown", "exit", "textDocument/didOpen", "textDocument/willSaveWaitUntil"), names=())
-        b = docs.slice_model(com, methods=("shutdown", "textDocument/didOpen", "workspace/didChangeWorkspaceFolders"), names=())
+        a = docs.slice_model(com, methods=("shutdown", "exit", "textDocument/didOpen", "textDocument/willSaveWaitUntil", "textDocument/foldingRange"), names=())
+        b = docs.slice_model(com, methods=("shutdown", "textDocument/didOpen", "workspace/didChangeWorkspaceFolders", "textDocument/foldingRange"), names=())
     b = evolve_for_history(b)
     pa = docs.write(a, os.path.join(work, "A.json"))
     pb = docs.write(b, os.path.join(work, "B.json"))
